@@ -520,6 +520,82 @@ def rule_topo(ctx):
                         "orders used for the peak and for execution are valid execution orders", lambda i: True, 5)
 
 
+def _accepts(cls, name, opt, depth=0):
+    """Does method ``name`` take option ``opt`` — by name, or through a ``**kw`` it hands to a method that does?"""
+    f = None
+    for c in cls.mro():
+        if name in c.methods:
+            f = c.methods[name]
+            break
+    if f is None or depth > 3:
+        return None
+    a = f.node.args
+    names = [x.arg for x in a.posonlyargs + a.args + a.kwonlyargs]
+    if opt in names:
+        return ("named", names.index(opt) - 1 if opt in [x.arg for x in a.posonlyargs + a.args] else None)
+    if a.kwarg is None:
+        return None
+    for call in (n for n in walk_local(f.node) if isinstance(n, ast.Call)):
+        if not (isinstance(call.func, ast.Attribute) and isinstance(call.func.value, ast.Name) and call.func.value.id == "self"):
+            continue
+        if any(k.arg is None and isinstance(k.value, ast.Name) and k.value.id == a.kwarg.arg for k in call.keywords):
+            if _accepts(cls, call.func.attr, opt, depth + 1):
+                return ("kwargs", None)
+    return None
+
+
+def rule_order(ctx):
+    """(seed C03_14) The arrays produced at step k are the ones the tree reports for step k of ``traverse(order)``
+    only if the order a caller asks for reaches the traversal: every method of the tree that takes ``order`` hands
+    it (a value depending on its own parameter) to every method of the tree it calls that takes one too."""
+    r = RuleResult("C03-ORDER", "a requested traversal order is handed on to every delegate that takes one", 12)
+    tc = ctx.p.cls(C.CORE, "ContractionTree")
+    opt = "order"
+    for name, f in sorted(tc.methods.items()):
+        a = f.node.args
+        if opt not in [x.arg for x in a.posonlyargs + a.args + a.kwonlyargs]:
+            continue
+        fl = ctx.flow(f)
+        for n, call in fl.calls():
+            fn = call.func
+            if not (isinstance(fn, ast.Attribute) and isinstance(fn.value, ast.Name) and fn.value.id == "self"):
+                continue
+            acc = _accepts(tc, fn.attr, opt)
+            if not acc:
+                continue
+            cons = f"{C.CORE}::ContractionTree.{name}::C03-ORDER::{fn.attr}"
+            passed = []
+            for k in call.keywords:
+                if k.arg == opt:
+                    passed.append(k.value)
+                elif k.arg is None and isinstance(k.value, ast.Dict):
+                    passed += [vv for kk, vv in zip(k.value.keys, k.value.values) if isinstance(kk, ast.Constant) and kk.value == opt]
+                elif k.arg is None and isinstance(k.value, ast.Name):
+                    for d in fl.defs_reaching(k.value.id, n.id):
+                        if isinstance(d.value, ast.Dict):
+                            for kk, vv in zip(d.value.keys, d.value.values):
+                                if isinstance(kk, ast.Constant) and kk.value == opt:
+                                    passed.append((vv, d.node))
+                        elif isinstance(d.value, ast.Call) and C.call_name(d.value) == "dict":
+                            for kw in d.value.keywords:
+                                if kw.arg == opt:
+                                    passed.append((kw.value, d.node))
+            if acc[0] == "named" and acc[1] is not None and len(call.args) > acc[1] and not any(isinstance(x, ast.Starred) for x in call.args):
+                passed.append(call.args[acc[1]])
+            ok = False
+            for e in passed:
+                e, at = e if isinstance(e, tuple) else (e, n.id)
+                if ("param", opt) in fl.deps(e, at, "may"):
+                    ok = True
+            if ok:
+                r.ok(cons, C.loc(f, call), f"`{opt}` handed on to {fn.attr}")
+            else:
+                r.violation(cons, C.loc(f, call),
+                            f"{name} takes `{opt}` but calls {fn.attr}, which takes one too, without it: the steps "
+                            f"executed (or reported) there follow the default order, not the requested one")
+    return r
+
+
 def _shared_rules():
     """The reported totals are the tree's running totals: they equal the definition only if the incremental bookkeeping of C04 is right."""
     out = []
@@ -562,4 +638,4 @@ def _shared_rules():
     return out
 
 
-RULES = [rule_topo, rule_validate, rule_arith, rule_prov, rule_mult, rule_leafcount, rule_multpair, rule_exec, rule_peak, rule_intsize, rule_maxcount, rule_totals_state, rule_intcost] + _shared_rules()
+RULES = [rule_order, rule_topo, rule_validate, rule_arith, rule_prov, rule_mult, rule_leafcount, rule_multpair, rule_exec, rule_peak, rule_intsize, rule_maxcount, rule_totals_state, rule_intcost] + _shared_rules()
